@@ -147,6 +147,21 @@ fn rv_sets(tier: &str) -> Vec<(String, RealVectorStateSpace, Vec<Scn<RealVectorS
         feas: 1,
     });
     out.push(("rv2".to_string(), sp, scs));
+    // C01 has no in-bounds precondition: a goal region overhanging the box, with an obstacle flush
+    // against the inside of the boundary (a state outside the box is free, its projection is not)
+    let sp_o = RealVectorStateSpace::new(2, Some(vec![(0.0, 10.0), (0.0, 10.0)])).unwrap();
+    out.push((
+        "rv2-overhang".to_string(),
+        sp_o,
+        vec![Scn {
+            name: "goal-outside".into(),
+            clearance: Rc::new(|s: &RealVectorState| sdf_box(&s.values, &[9.6, 5.5], &[10.0, 6.5])),
+            start: rv(&[8.8, 5.0]),
+            goal: rv(&[10.6, 6.0]),
+            goal_r: 0.5,
+            feas: 2,
+        }],
+    ));
     // fine resolution (lvs = 0.0707): motions of many hundred interpolation steps, PRM radius and
     // RRT step far above 32 resolution lengths, a thin full-height wall (0.12 > lvs)
     let mut fine = RealVectorStateSpace::new(2, Some(vec![(0.0, 10.0), (0.0, 10.0)])).unwrap();
@@ -430,6 +445,7 @@ where
                     let pseed = ctx.seed.wrapping_mul(7919).wrapping_add(ctx.run as u64 * 31 + si);
                     ctx.run += 1;
                     let run = ctx.run;
+                    let iters = if kind == Kind::Star { iters * 3 } else { iters };
                     let desc = json!({"space": label, "world": sc.name, "planner": kind.name(), "maxd": maxd, "radius": radius,
                                       "bias": bias, "seed": pseed, "iters": iters, "lvs": lvs, "feas": sc.feas});
                     if ctx.list {
@@ -477,6 +493,7 @@ where
                         feas: sc.feas,
                     }];
                     let mut an = Annot::new(&geom, kind, params.clone());
+                    an.c04_precondition = label != "rv2-overhang";
                     an.reset(run, desc.clone());
                     for r in &recs {
                         an.call(r, &pinfo);
